@@ -250,6 +250,15 @@ impl Property for C06 {
                     ));
                     // an unescaped body: error unless it happens to be well-formed
                     cases.push(tok_case(&format!("\"{}", body), None, "string-raw"));
+                    // the literal after comments (whatever came before it in the source, it denotes its text)
+                    let want = Some(format!("S:{}", hex(body.as_bytes())));
+                    cases.push(tok_case(&format!("/* c */{}", quote(&body)), want.clone(), "string-after-comment"));
+                    cases.push(tok_case(&format!("// \"c\"\n {}", quote(&body)), want.clone(), "string-after-comment"));
+                    cases.push(tok_case(
+                        &format!("x/*\"*/+/**/{}//", quote(&body)),
+                        Some(format!("ID:78 Plus S:{}", hex(body.as_bytes()))),
+                        "string-after-comment",
+                    ));
                 }
             }
         }
